@@ -5,9 +5,10 @@
          premise `lsq_spec lsq` (answer within the bounds, cost not larger than at the start);
    hyp : Euclidean norm used by grid.transform;  dev : image deviation over the fit region (abstract);
    st  : min / max of the image over the fit region (None = empty region). *)
-From Coq Require Import QArith ZArith List Bool.
+From Coq Require Import String QArith ZArith List Bool.
 Import ListNotations.
 From PD Require Import Model.Grid Gen.Gen_refine Model.Refine Proofs.RefineVec Proofs.Render Proofs.Refine Proofs.C04.
+From PD Require Import Proofs.RefineOptions.
 Local Open Scope Q_scope.
 
 (* the result has the candidate's class, promoted to DiffuseDroplet when it has no interface, and carries a width *)
@@ -128,6 +129,41 @@ Theorem C04_fit_region_dilation : forall w, 0 <= w ->
   inject_Z (dilation_passed (dilation_iterations w)) <= 2 * w + 1.
 Proof. exact fit_region_dilation. Qed.
 Print Assumptions C04_fit_region_dilation.
+
+(* the options of the optimiser (arguments `tolerance`, `least_squares_params`; keys and the copy GENERATED from the source):
+   the caller's dict holds the same entries after the call as before, whatever `tolerance` is ... *)
+Theorem C04_options_caller_dict_unchanged : forall tolerance params,
+  caller_params_after tolerance params = params.
+Proof. exact caller_params_unchanged. Qed.
+Print Assumptions C04_options_caller_dict_unchanged.
+
+(* ... and least_squares receives every entry of the caller's dict unchanged; `tolerance` supplies ftol, xtol, gtol where the
+   dict does not specify them; nothing else is added *)
+Theorem C04_options_documented : forall tolerance params k,
+  opt_lookup k (lsq_options tolerance params) =
+  match opt_lookup k (match params with None => [] | Some p => p end) with
+  | Some x => Some x
+  | None => match tolerance with
+            | Some t => if existsb (String.eqb k) ["ftol"; "xtol"; "gtol"]%string then Some (OQ t) else None
+            | None => None
+            end
+  end.
+Proof. exact lsq_options_lookup. Qed.
+Print Assumptions C04_options_documented.
+
+(* the candidate OBJECT of the caller is left as it was (also when it is a member of an Emulsion), and the result is a new
+   object -- for every candidate class, grid, image and optimiser answer; `candidate_copied` is GENERATED from the source *)
+Theorem C04_candidate_object_unchanged : forall lsq hyp dev g st vmin_o vmax_o adjust c,
+  caller_candidate_after c (refine lsq hyp dev g st vmin_o vmax_o adjust c) = c /\ result_is_candidate c = false.
+Proof. exact candidate_object_unchanged. Qed.
+Print Assumptions C04_candidate_object_unchanged.
+
+Example C04_options_nonvacuous :
+  lsq_options (Some (1 # 1000)) (Some [("ftol"%string, OQ (1 # 10)); ("method"%string, OS "trf"%string)])
+  = [("ftol"%string, OQ (1 # 10)); ("method"%string, OS "trf"%string); ("xtol"%string, OQ (1 # 1000)); ("gtol"%string, OQ (1 # 1000))]
+  /\ lsq_options None None = []
+  /\ lsq_options (Some 1) None = [("ftol"%string, OQ 1); ("xtol"%string, OQ 1); ("gtol"%string, OQ 1)].
+Proof. exact ex_options. Qed.
 
 (* non-vacuity: an optimiser satisfying both specifications; a spherical candidate across the periodic boundary of
    a Cartesian grid (promoted, default width, wrapped into the box); an off-axis axisymmetric candidate on a periodic
